@@ -29,6 +29,10 @@ CHECKS = {
    text="Seeded search over paid uploads, unpaid updates and replicated copies of scratchpads (counters, signers, signature validity), transaction sets and registers (op sets, signers); configuration 'sequential' compares the store with a monotone/union model after every delivery, configuration 'concurrent' keeps 2-3 deliveries to one key in flight while the simulator interleaves the handling of their commands and disk writes in seeded order, and requires the order-independent merge at the end.",
    note="Trusted: as C03. In the concurrent configuration equal-counter scratchpads may resolve either way.",
    technique="deterministic simulation: gate-scheduled interleaving of overlapping updates to one key, monotone/union model oracle"),
+ "C05": dict(sim="getrecord", level="exploration", ref="5 C05",
+   text="Seeded search over 1-4 concurrent callers of the real Network::get_record_from_network for one key (own quorum / expected record each) and a stream of kad progress events fed to the real SwarmDriver handlers in seeded order: FoundRecord from up to 8 peers holding up to 4 versions (opaque, registers incl. unverifiable, transaction sets, scratchpads valid/unsigned/forged, mixed kinds), duplicates, changed answers, late callers, and every terminal event. Each caller's outcome is judged against its own quorum and target: Ok needs >= Q distinct peers with byte-identical content matching the target, or the reference merge of the delivered versions; every caller gets exactly one outcome and no query entry survives its terminal event.",
+   note="Trusted: the simulator plays libp2p's kad query engine by emitting the kad::Event values the engine emits; caller cancellation not injected; back-off retries only with a single caller (unseeded jitter).",
+   technique="deterministic simulation: synthetic kad progress events in seeded order against the real accumulation handlers, per-caller quorum/merge oracle"),
 }
 
 NOT_APPLICABLE = {
